@@ -67,6 +67,9 @@ pub enum EpsVar {
     NegUser,
     /// sqrt(epsq + 1/2): between two singular values of an orthogonal-column instance
     Between,
+    /// a quarter of the smallest singular value over all tabulated parameter vectors of a full rank
+    /// instance: a large user threshold that truncates nothing
+    Quarter,
 }
 
 pub struct Pools {
@@ -102,6 +105,8 @@ pub struct Inst<T: Sc> {
     pub xs: Vec<T>,
     pub healthy: Vec<bool>,
     pub poly: bool,
+    /// a quarter of the smallest singular value of W*Phi over all tabulated parameter vectors (full rank instances only)
+    pub sig_quarter: Option<f64>,
 }
 
 /// C01 / C02 / C10: parameter vectors that compare equal but are different bit patterns (+0.0, -0.0)
@@ -467,6 +472,18 @@ impl<T: Sc> Inst<T> {
                 svd_healthy(&pw)
             })
             .collect();
+        let mfull = m as i64;
+        let sig_quarter = if m >= 2 && line.pts.iter().all(|pt| pt.rank == mfull && pt.lvl >= 1) {
+            let mut smin = f64::INFINITY;
+            for e in table.entries.iter() {
+                let pw = DMatrix::<f64>::from_fn(n, m, |i, j| w.as_ref().map(|w| w[i].to64()).unwrap_or(1.0) * e.phi[(i, j)].to64());
+                let sv = pw.singular_values();
+                smin = sv.iter().fold(smin, |a, v| a.min(*v));
+            }
+            if smin.is_finite() && smin / 4.0 >= 1e-3 { Some(smin / 4.0) } else { None }
+        } else {
+            None
+        };
         Self {
             line: line.clone(),
             idx,
@@ -480,6 +497,7 @@ impl<T: Sc> Inst<T> {
             xs,
             healthy,
             poly,
+            sig_quarter,
         }
     }
 
@@ -489,6 +507,7 @@ impl<T: Sc> Inst<T> {
             EpsVar::User => Some(T::eps_user()),
             EpsVar::NegUser => Some(-T::eps_user()),
             EpsVar::Between => Some(T::of64(((self.line.epsq as f64) + 0.5).sqrt())),
+            EpsVar::Quarter => self.sig_quarter.map(T::of64),
         }
     }
 
@@ -816,6 +835,8 @@ fn run_inst<T: Sc>(line: &Line, idx: usize, pools: &Pools, opts: &Opts, rep: &mu
             evs = vec![EpsVar::Between];
         } else if any_def && kind == Kind::Table {
             evs = eps_rot.to_vec();
+        } else if kind == Kind::Table && inst.sig_quarter.is_some() {
+            evs.push(EpsVar::Quarter);
         }
         for &ev in &evs {
             let mrhs_opts: Vec<bool> = if inst.s >= 2 { vec![true] } else { vec![false, true] };
